@@ -5,22 +5,28 @@
    - m_flags   : the FLAGS list as the session sees it (permanent flags union
                  session flags, i.e. including \Recent), canonical spelling;
    - m_idate   : date part of INTERNALDATE as held (its own zone);
-   - m_sdate   : date part of the parsed Date: header, None if absent/invalid
-                 (ORACLE: stdlib email.headerregistry DateHeader);
-   - m_headers : (lower-cased field name, decoded value) in order of
-                 occurrence (ORACLE: email header registry decoding);
+   - m_rawdate : source value (after the colon, unfolded) of the first Date:
+                 field, None if there is none;
+   - m_sdate   : date part of the parsed Date: header, None if absent/invalid:
+                 observed, and required by [wf_msg] to be what the model of the
+                 stdlib date parser (Search/SentDate.v) computes from m_rawdate
+                 wherever that model applies (ORACLE only in its unmodelled
+                 corners);
+   - m_headers : (field name AS WRITTEN, decoded value) in order of
+                 occurrence (ORACLE: email header registry decoding of the value;
+                 the name is stripped and case-folded by the model);
    - m_parts   : MessageContent.walk(): for the message itself and then every
                  nested MIME part: raw header octets, "main type is text",
                  raw body octets (ORACLE: pymap's MIME splitter).
    The oracles are data: the theorems hold for every value of these fields.
    Definitions only. *)
-From PV Require Import Base.Prelude Wire.SeqSet Search.Text Search.Keys.
+From PV Require Import Base.Prelude Wire.SeqSet Search.Text Search.Keys Search.SentDate.
 
 Record part := mkPart { p_header : bytes; p_text : bool; p_body : bytes }.
 
 Record msg := mkMsg {
   m_uid : N; m_seq : N; m_flags : list bytes; m_size : N;
-  m_idate : date; m_sdate : option date;
+  m_idate : date; m_rawdate : option str; m_sdate : option date;
   m_headers : list (bytes * str);
   m_parts : list part;
   m_emailid : bytes; m_threadid : bytes }.
@@ -52,10 +58,28 @@ Definition field_bytes (h : hfield) : bytes :=
 
 Definition has_flag (f : bytes) (m : msg) : bool := existsb (bytes_eqb f) (m_flags m).
 
-(* header field names of the record are stored lower-cased and the view
-   numbers its messages 1..n with strictly ascending UIDs *)
-Definition wf_msg (m : msg) : bool :=
-  forallb (fun h => bytes_eqb (lower (fst h)) (fst h)) (m_headers m).
+(* bytes.strip(): MessageHeader._find_folded keys the header map by
+   data[start:colon].strip().lower() *)
+Definition is_bws (c : N) : bool := ((c =? 32) || ((9 <=? c) && (c <=? 13)))%N.
+Fixpoint lstrip_ws (s : bytes) : bytes :=
+  match s with c :: r => if is_bws c then lstrip_ws r else s | [] => [] end.
+Definition strip_ws (s : bytes) : bytes := rev (lstrip_ws (rev (lstrip_ws s))).
+Definition header_key (written : bytes) : bytes := lower (strip_ws written).
+
+(* the observed sent date is the one the date-parser model computes from the
+   source value, wherever the model applies; the view numbers its messages
+   1..n with strictly ascending UIDs *)
+Definition sdate_ok (m : msg) : bool :=
+  match m_rawdate m with
+  | None => match m_sdate m with None => true | Some _ => false end
+  | Some v => match parse_sent_date v, m_sdate m with
+              | SdUnmodelled, _ => true
+              | SdSome d, Some o => date_eqb d o
+              | SdNone, None => true
+              | _, _ => false
+              end
+  end.
+Definition wf_msg (m : msg) : bool := sdate_ok m.
 
 Fixpoint seqs_from (i : N) (v : view) : bool :=
   match v with
